@@ -48,6 +48,113 @@ def nonMappingClsGenD (w : World) (cfg : Cfg) (c : Nat) (o : Obj) : Res :=
       | some fs => .ok (.inst c fs)
       | Option.none => .error (.cve [(Option.none, .leaf)])
 
+/-! ### `str` / `bytes` payloads at iterating positions, detailed templates (see `stLF`) -/
+
+mutual
+def stLD (w : World) (cfg : Cfg) : Nat → Ty → Obj → Res
+  | _, .any, x => .ok x
+  | _, .int, x => match x.toInt? with | some i => .ok (.int i) | Option.none => .error .leaf
+  | _, .float, x => match x.toFlt? with | some i => .ok (.flt i) | Option.none => .error .leaf
+  | _, .str, x => .ok (.str (pyStr x))
+  | _, .bytes, x => match x.toBytes? with | some i => .ok (.bytes i) | Option.none => .error .leaf
+  | _, .bool, x => .ok (.bool x.truthy)
+  | _, .enum e, x => match enumOf w e x with | some v => .ok v | Option.none => .error .leaf
+  | _, .lit vs, x => if Obj.memPy x vs then .ok x else .error .leaf
+  | n, .coll k t, o =>
+      match leafItems o with
+      | Option.none => .error .leaf
+      | some xs =>
+        if t.isAny then
+          match finishColl w k.structTo xs with
+          | some r => .ok r
+          | Option.none => .error .leaf
+        else
+          let (ys, errs) := stLDL w cfg n t k.structTo.isSet 0 xs
+          if !errs.isEmpty then .error (.ive errs)
+          else .ok (mkColl k.structTo ys)
+  | n, .tupleHet ts, o =>
+      match leafItems o with
+      | Option.none => .error .leaf
+      | some xs =>
+        let (ys, errs) := stLDT w cfg n 0 ts xs
+        let errs := if xs.length != ts.length then errs ++ [(Option.none, Err.leaf)] else errs
+        if !errs.isEmpty then .error (.ive errs) else .ok (.coll .tuple ys)
+  | _, .opt _, .none => .ok .none
+  | n, .opt t, x => stLD w cfg n t x
+  | n, .wrap _ t, x => stLD w cfg n t x
+  | n, .cls c, o =>
+      if cfg.tupleStrat then
+        match n with
+        | 0 => .error .leaf                                  -- fuel exhausted: `RecursionError`
+        | n' + 1 =>
+          match leafItems o with
+          | Option.none => .error .leaf
+          | some xs =>
+            match stLDFieldsT w cfg n' (w.fields c) xs with
+            | .ok fs => .ok (.inst c fs)
+            | .error e => .error e
+      else if cfg.gen then nonMappingClsGenD w cfg c o
+      else match nonMappingClsInterp w c with
+        | some v => .ok v
+        | Option.none => .error .leaf
+  | _, .td _, _ => if cfg.gen then .error (.cve [(Option.none, .leaf)]) else .error .leaf
+  | n, .union cs hn, o =>
+      match unionPick w cs hn o with
+      | .ok m => if h : m ∈ cs then stLD w cfg n (.cls m) o else .error .leaf
+      | .none => .ok .none
+      | _ => .error .leaf
+  | n, .nt c, o =>
+      match n with
+      | 0 => .error .leaf
+      | n' + 1 =>
+        match leafItems o with
+        | Option.none => .error .leaf
+        | some xs =>
+          if w.isNT c then
+            let (ys, errs) := stLDT w cfg n' 0 (w.ntTys c) xs
+            let errs := if xs.length != (w.ntTys c).length then errs ++ [(Option.none, Err.leaf)] else errs
+            if !errs.isEmpty then .error (.ive errs) else .ok (ntMk w c ys)
+          else .error .leaf
+  | _, _, _ => .error .leaf
+termination_by n t _ => (n, sizeOf t, 0)
+decreasing_by
+  all_goals first
+    | decreasing_tactic
+    | (apply Prod.Lex.right; apply Prod.Lex.left; have := List.sizeOf_lt_of_mem h; simp at this ⊢; omega)
+def stLDL (w : World) (cfg : Cfg) (n : Nat) (t : Ty) (isSet : Bool) (ix : Nat) : List Obj → List Obj × List (Option Obj × Err)
+  | [] => ([], [])
+  | x :: xs =>
+    let (ys, errs) := stLDL w cfg n t isSet (ix + 1) xs
+    match stLD w cfg n t x with
+    | .ok y => if isSet && !hashable w y then (ys, (some (.int ix), Err.leaf) :: errs) else (y :: ys, errs)
+    | .error e => (ys, (some (.int ix), e) :: errs)
+termination_by xs => (n, sizeOf t, xs.length + 1)
+def stLDT (w : World) (cfg : Cfg) (n : Nat) (ix : Nat) : List Ty → List Obj → List Obj × List (Option Obj × Err)
+  | t :: ts, x :: xs =>
+    let (ys, errs) := stLDT w cfg n (ix + 1) ts xs
+    match stLD w cfg n t x with
+    | .ok y => (y :: ys, errs)
+    | .error e => (ys, (some (.int ix), e) :: errs)
+  | _, _ => ([], [])
+termination_by ts _ => (n, sizeOf ts, 0)
+def stLDFieldsT (w : World) (cfg : Cfg) (n : Nat) : List Field → List Obj → Except Err (List (String × Obj))
+  | [], _ => .ok []
+  | f :: fds, [] =>
+      match f.dflt.value? with
+      | Option.none => .error .leaf
+      | some d => (stLDFieldsT w cfg n fds []).map ((f.name, d) :: ·)
+  | f :: fds, x :: xs =>
+      if !f.init then
+        match f.dflt.value? with
+        | Option.none => .error .leaf
+        | some d => (stLDFieldsT w cfg n fds xs).map ((f.name, d) :: ·)
+      else
+        match (match f.ty with | Option.none => Except.ok x | some t => stLD w cfg n t x) with
+        | .error e => .error e
+        | .ok y => (stLDFieldsT w cfg n fds xs).map ((f.name, y) :: ·)
+termination_by fds _ => (n + 1, 0, fds.length)
+end
+
 mutual
 def stD (w : World) (cfg : Cfg) : Ty → Obj → Res
   | .any, x => .ok x
@@ -60,7 +167,7 @@ def stD (w : World) (cfg : Cfg) : Ty → Obj → Res
   | .lit vs, x => if Obj.memPy x vs then .ok x else .error .leaf
   | .coll k t, o =>
       match h : iterItems o with
-      | Option.none => .error .leaf
+      | Option.none => stLD w cfg (leafFuel w) (.coll k t) o
       | some xs =>
         if t.isAny then
           match finishColl w k.structTo xs with
@@ -72,7 +179,7 @@ def stD (w : World) (cfg : Cfg) : Ty → Obj → Res
           else .ok (mkColl k.structTo ys)
   | .tupleHet ts, o =>
       match h : iterItems o with
-      | Option.none => .error .leaf
+      | Option.none => stLD w cfg (leafFuel w) (.tupleHet ts) o
       | some xs =>
         let (ys, errs) := stDT w cfg 0 ts xs
         let errs := if xs.length != ts.length then errs ++ [(Option.none, Err.leaf)] else errs
@@ -100,7 +207,7 @@ def stD (w : World) (cfg : Cfg) : Ty → Obj → Res
   | .cls c, o =>
       if cfg.tupleStrat then
         match h : iterItems o with
-        | Option.none => .error .leaf
+        | Option.none => stLD w cfg (leafFuel w) (.cls c) o
         | some xs =>
           match stDFieldsT w cfg (w.fields c) xs with
           | .ok fs => .ok (.inst c fs)
@@ -127,7 +234,7 @@ def stD (w : World) (cfg : Cfg) : Ty → Obj → Res
   | .nt c, o =>
       -- the heterogeneous-tuple hook's group (index notes, one un-indexed leaf for a wrong arity), then `cl(*res)`
       match h : iterItems o with
-      | Option.none => .error .leaf
+      | Option.none => stLD w cfg (leafFuel w) (.nt c) o
       | some xs =>
         if w.isNT c then
           let (ys, errs) := stDT w cfg 0 (w.ntTys c) xs
